@@ -9,10 +9,12 @@
    Definitions only.
 
    Conventions.  Addresses, public keys, relay addresses and account patterns are numbers
-   (a 20/48-byte value read big-endian; relay address strings and regular expressions are
-   numbered by the harness, a pattern and its anchored form "^...$" having the same number).
-   Whether an account pattern matches a validator is an input ([v_accts]): regular-expression
-   matching is Go's.  Durations are nanoseconds, minimum values are decimals [m * 10^e] in wei.
+   (byte strings and relay address strings are numbered by the harness per case: the model only
+   compares them for equality and against zero; account patterns are numbered by what they match
+   among a set of probe names that includes the case's validators, so a pattern and the anchored
+   text the implementation stores or marshals for it have the same number exactly when they
+   behave alike).  Whether an account pattern matches a validator is an input ([v_accts]):
+   regular-expression matching is Go's, on the documented meaning of the pattern.  Durations are nanoseconds, minimum values are decimals [m * 10^e] in wei.
    Go maps are key-unique association lists; the model iterates them in list order (the proofs
    show that the order only permutes the resulting relay list).  int64 overflow of
    "grace milliseconds * 10^6" is outside the model (bound stated in props/C10.json). *)
